@@ -265,3 +265,14 @@ def gen_C15(tier, rng):
     yield ("fe.prog +", "malformed")
     yield ("fe.prog b00;t", "malformed")
     yield ("fe.prog c1;o3", "malformed")
+
+
+# ----------------------------------------------------------------------------- C20 (x25519 wrapper types)
+
+def gen_C20(tier, rng):
+    """`TryFrom<&[u8]>` of `SecretKey` / `PublicKey` / `SharedSecret` answers `Err(())` for every length but 32 (one
+    below / above, zero, twice, very large); `dh` / `base` take the wrapper types, `ed25519::*` take arrays: no other
+    length can be passed"""
+    for n in (0, 1, 16, 31, 32, 33, 64, 100000):
+        for _ in range(2):
+            yield (f"x25519.tryfrom {'-' if n == 0 else rng.rbytes(n).hex()}", "tryfrom.accept" if n == 32 else "tryfrom.refuse")
